@@ -389,3 +389,74 @@ def check_c15(tier, seed, replay=None, selftest=False):
     chk.assumptions += ["digest of >2^29-byte streams computed by Prim!DigestOfSegs (JDK MessageDigest / own SM3), cross-checked against the "
                         "TLA+ definition HashStd!Digest on short streams at setup", "periodic pattern data (period 2^20)"]
     return chk.finish()
+
+
+# ------------------------------------------------------------------------------------------ wrapper layer
+import gen_gate
+GATE_SRCS = ["main.c", "core.c", "vcall.S", "drv_gate.c", "seams.S"]
+
+
+def gate_wraps():
+    return open(os.path.join(verif.VERIF, "harness", "seams.list")).read().split() + ["_aes_self_tests", "_sha_self_tests"]
+
+
+def gate_entries(exe):
+    d = verif.scratch("gatelist")
+    rc, err = verif.run_driver(exe, "gatelist\n", os.path.join(d, "t.nd"))
+    if rc:
+        raise verif.MachineryError("gatelist failed: " + err)
+    return [json.loads(l) for l in open(os.path.join(d, "t.nd"))]
+
+
+def exported_isal(variant):
+    lib = build.build_lib(variant)
+    return sorted({l.split()[2] for l in open(os.path.join(lib, "syms.txt")) if len(l.split()) == 3 and l.split()[1] == "T"
+                   and l.split()[2].startswith("isal_")})
+
+
+def gate_check(pid, tier, seed, replay, variant, mode, gen, rule, props):
+    chk = verif.Check(pid, "model_checking", tier, seed)
+    exe = build.build_driver("gate", GATE_SRCS, variant=variant, wraps=gate_wraps())
+    env = {"MODE": mode}
+    if replay:
+        lines = [x for x in open(replay).read().splitlines() if x and not x.startswith("#")]
+        outs = run_jobs([{"name": "replay", "behaviours": [lines], "env": env}], exe, "TraceGate")
+        collect(chk, outs, props, marker="Mark")
+        chk.cov.update({"states": 1, "transitions": 1, "traces_validated_against_impl": 1, "samples": [replay]})
+        return chk.finish()
+    model_check(chk, [("ApiGateModel", "ApiGateModel.cfg", 8, 600)])
+    listing = gate_entries(exe)
+    entries = gen_gate.table(listing)
+    known = {e[0] for e in entries}
+    uncovered = [n for n in exported_isal(variant) if n not in known]
+    chk.cov["exported_entry_points_without_driver"] = uncovered
+    rng = random.Random(seed * 7 + int(pid[1:]))
+    bs = gen(entries, rng, tier != "quick")
+    nj = 12
+    jobs = [{"name": "gate-%d" % i, "behaviours": bs[i::nj], "driver": "gate", "env": env} for i in range(nj)]
+    outs = run_jobs(jobs, exe, "TraceGate")
+    nb, ne = collect(chk, outs, props | {"SPEC"}, marker="Mark")
+    _finish_traces(chk, jobs, outs, nb, ne, rule)
+    chk.cov["entries"] = len(entries)
+    chk.assumptions += ["argument signatures (one letter per parameter) are transcribed from the public headers into harness/drv_gate.c",
+                        "cryptographic work = an internal dispatched function entered (ld --wrap seams) or an argument object changed"]
+    return chk.finish()
+
+
+@reg("C13")
+def check_c13(tier, seed, replay=None, selftest=False):
+    return gate_check("C13", tier, seed, replay, "fips", "fips", gen_gate.c13_behaviours,
+                      "FIPS_MODE build; every exported isal_ entry point x {verdict passed, failed, not run with real tests / injected pass / "
+                      "injected AES failure / injected SHA failure (-1) / both} x valid arguments, each first call followed by a second one; "
+                      "XTS entry points also with data key = tweak key (raw and pre-expanded: schedules of the same key, decryption schedule "
+                      "for the dec entry points); TLC validates each event against ApiGate!OutcomeOkFips and FailClosed", {"C13"})
+
+
+@reg("C16")
+def check_c16(tier, seed, replay=None, selftest=False):
+    return gate_check("C16", tier, seed, replay, "def", "plain", gen_gate.c16_behaviours,
+                      "default build (SAFE_PARAM); every exported isal_ entry point x {all valid, every (quick: sampled multi-element) subset "
+                      "of pointer arguments NULL with the remaining pointers aimed at an inaccessible page, boundary values of length / tag "
+                      "length / window / flags}; TLC validates return code, absence of side effects and of any dereference against "
+                      "ApiGate!OutcomeOkPlain; legacy/isal_ agreement is carried by the functional checks C01-C10, which drive both spellings "
+                      "against the same deterministic spec", {"C16"})
